@@ -1,29 +1,34 @@
-(* path/filepath.Clean (Model/Url.path_clean) respects equality under strings.EqualFold as modelled in Model/Fold.v:
+(* path/filepath.Clean (Model/Url.path_clean) respects equality under iri.go equalFold as modelled in Model/Fold.v
+   (sfold_eqb, the kernel of scanon; the same proofs go through for strings.EqualFold):
    "/" and "." are ASCII bytes that are not letters, so two strings with the same canonical form split into
    segments with the same canonical forms, the same segments are "", "." and "..", and the results have the
    same canonical form.  No condition on the strings (invalid UTF-8 included). *)
 From AP.Model Require Import Prelude Bytes Url IriEq IriNf Vocab Pred CollIri Utf8 FoldTab Fold.
 From AP.Proofs Require Import NlvP LowerP IriEqP SortP IriGenP IriNfP Utf8P FoldP.
 
-Definition feq (x y : bytes) : Prop := ucanon x = ucanon y.
+Definition feq (x y : bytes) : Prop := scanon x = scanon y.
 
-Lemma uc_app_ascii x c y : is_asciib c = true -> ucanon (x ++ c :: y) = ucanon x ++ canon (byteN c) :: ucanon y.
-Proof. apply (ucanon_app_ascii fold_tab). Qed.
-Lemma uc_cons_ascii c y : is_asciib c = true -> ucanon (c :: y) = canon (byteN c) :: ucanon y.
-Proof. apply (ucanon_cons_ascii fold_tab). Qed.
-Lemma uc_nil s : ucanon s = [] -> s = [].
-Proof. apply (ucanon_nil fold_tab). Qed.
+Lemma uc_app_ascii x c y : is_asciib c = true -> scanon (x ++ c :: y) = scanon x ++ canon (byteN c) :: scanon y.
+Proof. apply (ucanon_app_ascii fold_tab strict_err). Qed.
+Lemma uc_cons_ascii c y : is_asciib c = true -> scanon (c :: y) = canon (byteN c) :: scanon y.
+Proof. apply (ucanon_cons_ascii fold_tab strict_err). Qed.
+Lemma uc_app_valid x y : utf8_valid x = true -> scanon (x ++ y) = scanon x ++ scanon y.
+Proof. apply (ucanon_app_valid fold_tab strict_err). Qed.
+Lemma uc_app_sync x y : starts y -> scanon (x ++ y) = scanon x ++ scanon y.
+Proof. apply (ucanon_app_sync fold_tab strict_err). Qed.
+Lemma uc_nil s : scanon s = [] -> s = [].
+Proof. apply (ucanon_nil fold_tab strict_err). Qed.
 Lemma canon_delim_byte d x : is_delim d = true -> (canon x = byteN d <-> x = byteN d).
 Proof. apply (canon_delim fold_tab fold_tab_is_ok). Qed.
 Lemma canon_delim_self d : is_delim d = true -> canon (byteN d) = byteN d.
 Proof. apply (canon_delim_fixed fold_tab fold_tab_is_ok). Qed.
-Lemma uc_in_delim s c : is_delim c = true -> (In (byteN c) (ucanon s) <-> In c s).
-Proof. apply (ucanon_in_delim fold_tab fold_tab_is_ok). Qed.
+Lemma uc_in_delim s c : is_delim c = true -> (In (byteN c) (scanon s) <-> In c s).
+Proof. apply (ucanon_in_delim fold_tab fold_tab_is_ok strict_err strict_err_big). Qed.
 
 (* the first rune of a string that begins with a non-ASCII byte is not an ASCII rune *)
-Lemma runes_head_nonascii c r : is_asciib c = false -> exists x t, runes (c :: r) = x :: t /\ (128 <= x)%N.
+Lemma runes_head_nonascii c r : is_asciib c = false -> exists x t, srunes (c :: r) = x :: t /\ (128 <= x)%N.
 Proof.
-  intros A. rewrite runes_cons. assert (Err : (128 <= rune_error)%N) by (unfold rune_error; lia).
+  intros A. unfold srunes. rewrite runes_cons. assert (Err : (128 <= strict_err c)%N) by apply strict_err_big.
   destruct (lead_of c) as [| | |lo hi|lo hi] eqn:L.
   - apply lead_ascii_inv in L. congruence.
   - eauto.
@@ -43,33 +48,33 @@ Proof.
 Qed.
 
 (* a string whose canonical form begins with a delimiter begins with that delimiter *)
-Lemma ucanon_head_delim d s T : is_delim d = true -> ucanon s = byteN d :: T -> exists r, s = d :: r /\ ucanon r = T.
+Lemma scanon_head_delim d s T : is_delim d = true -> scanon s = byteN d :: T -> exists r, s = d :: r /\ scanon r = T.
 Proof.
   intros D E. destruct s as [|c r]; [discriminate|].
   destruct (is_asciib c) eqn:A.
   - rewrite (uc_cons_ascii c r A) in E. inversion E as [[E1 E2]]. apply (proj1 (canon_delim_byte d (byteN c) D)) in E1.
     apply byteN_inj in E1. subst c. exists r. auto.
   - exfalso. destruct (runes_head_nonascii c r A) as [x [t [R B]]].
-    unfold ucanon, ucanon_with in E. rewrite R in E. simpl in E. injection E as E1 _.
+    unfold scanon, scanon_with in E. rewrite R in E. simpl in E. injection E as E1 _.
     exact (canon_big_not_delim x d B D E1).
 Qed.
 
 (* a string of delimiters is alone in its class *)
-Lemma ucanon_delims_eq t : forallb is_delim t = true -> forall s, ucanon s = ucanon t -> s = t.
+Lemma scanon_delims_eq t : forallb is_delim t = true -> forall s, scanon s = scanon t -> s = t.
 Proof.
   induction t as [|d t IH]; intros Ht s E.
   - apply uc_nil. exact E.
   - simpl in Ht. apply andb_true_iff in Ht. destruct Ht as [Hd Ht].
     rewrite (uc_cons_ascii d t (delim_ascii d Hd)), (canon_delim_self d Hd) in E.
-    destruct (ucanon_head_delim d s _ Hd E) as [r [-> Er]]. f_equal. apply IH; assumption.
+    destruct (scanon_head_delim d s _ Hd E) as [r [-> Er]]. f_equal. apply IH; assumption.
 Qed.
 
 Lemma feq_delims_eqb t s s' : forallb is_delim t = true -> feq s s' -> bytes_eqb s t = bytes_eqb s' t.
 Proof.
   intros Ht E. unfold feq in E.
   destruct (bytes_eqb s t) eqn:E1, (bytes_eqb s' t) eqn:E2; try reflexivity.
-  - apply bytes_eqb_eq in E1. subst s. symmetry in E. apply (ucanon_delims_eq t Ht) in E. subst s'. rewrite bytes_eqb_refl in E2. discriminate.
-  - apply bytes_eqb_eq in E2. subst s'. apply (ucanon_delims_eq t Ht) in E. subst s. rewrite bytes_eqb_refl in E1. discriminate.
+  - apply bytes_eqb_eq in E1. subst s. symmetry in E. apply (scanon_delims_eq t Ht) in E. subst s'. rewrite bytes_eqb_refl in E2. discriminate.
+  - apply bytes_eqb_eq in E2. subst s'. apply (scanon_delims_eq t Ht) in E. subst s. rewrite bytes_eqb_refl in E1. discriminate.
 Qed.
 
 (* ================================================================ unique reading along a set of runes *)
@@ -89,7 +94,7 @@ Qed.
 
 Definition isnt (d : byte) (n : N) : bool := negb (n =? byteN d)%N.
 
-Lemma notin_ucanon d s : is_delim d = true -> notin d s = true -> forallb (isnt d) (ucanon s) = true.
+Lemma notin_scanon d s : is_delim d = true -> notin d s = true -> forallb (isnt d) (scanon s) = true.
 Proof.
   intros D H. apply forallb_forall. intros n Hn. unfold isnt. apply negb_true_iff, N.eqb_neq. intros ->.
   apply (uc_in_delim s d D) in Hn. unfold notin in H. rewrite forallb_forall in H. specialize (H d Hn).
@@ -109,12 +114,12 @@ Proof.
   destruct (cut_byte_spec d s) as [N1 S1]. destruct (cut_byte_spec d s') as [N2 S2].
   destruct (cut_byte d s) as [x o], (cut_byte d s') as [x' o']. cbn [fst snd] in *.
   rewrite S1, S2 in E. pose proof (delim_ascii d D) as A.
-  assert (T : forall o, ucanon (tail_of d o) = match o with Some y => byteN d :: ucanon y | None => [] end).
+  assert (T : forall o, scanon (tail_of d o) = match o with Some y => byteN d :: scanon y | None => [] end).
   { intros [y|]; [|reflexivity]. simpl. rewrite (uc_cons_ascii d y A), (canon_delim_self d D). reflexivity. }
-  assert (U : forall x o, ucanon (x ++ tail_of d o) = ucanon x ++ ucanon (tail_of d o)).
+  assert (U : forall x o, scanon (x ++ tail_of d o) = scanon x ++ scanon (tail_of d o)).
   { intros z [y|]; [|simpl; rewrite !app_nil_r; reflexivity]. simpl. rewrite (uc_app_ascii z d y A), (uc_cons_ascii d y A). reflexivity. }
   rewrite !U, !T in E.
-  apply (span_unique_N (isnt d)) in E; try (apply notin_ucanon; assumption).
+  apply (span_unique_N (isnt d)) in E; try (apply notin_scanon; assumption).
   - destruct E as [E1 E2]. split; [exact E1|]. destruct o, o'; try discriminate; [inversion E2; reflexivity|exact I].
   - destruct o; simpl; [unfold isnt; rewrite N.eqb_refl; reflexivity|exact I].
   - destruct o'; simpl; [unfold isnt; rewrite N.eqb_refl; reflexivity|exact I].
@@ -208,10 +213,10 @@ Proof.
   - destruct Nil as [_ Nil]. specialize (Nil eq_refl). discriminate.
   - unfold feq in E. destruct (Byte.eqb c slash) eqn:E1, (Byte.eqb c' slash) eqn:E2; try reflexivity.
     + apply beqb_eq in E1. subst c. rewrite (uc_cons_ascii slash r eq_refl), (canon_delim_self slash slash_delim) in E.
-      symmetry in E. destruct (ucanon_head_delim slash _ _ slash_delim E) as [r0 [E0 _]]. inversion E0. subst c'.
+      symmetry in E. destruct (scanon_head_delim slash _ _ slash_delim E) as [r0 [E0 _]]. inversion E0. subst c'.
       rewrite beqb_refl in E2. discriminate.
     + apply beqb_eq in E2. subst c'. rewrite (uc_cons_ascii slash r' eq_refl), (canon_delim_self slash slash_delim) in E.
-      destruct (ucanon_head_delim slash _ _ slash_delim E) as [r0 [E0 _]]. inversion E0. subst c.
+      destruct (scanon_head_delim slash _ _ slash_delim E) as [r0 [E0 _]]. inversion E0. subst c.
       rewrite beqb_refl in E1. discriminate.
 Qed.
 
